@@ -16,7 +16,8 @@
      what the items denote (BiffRec.logical under env_of); lbPlyPos is set by set_positions.
    answer = what `open xls <path> meta;names;range <n1>;range <n2>…` prints in the harness:
      <name hex>:<v|h|vh>:<ws|…>,… ;; <name hex>=<formula hex>,… ;; R[…] ;; R[…] …
-     openerr:password | openerr:other | panic | fuel for a failing open. *)
+     openerr:password | openerr:other | panic | fuel for a failing open; unmodelled where a
+     component model declines the input (VBA project storage, non-BIFF8 BOF). *)
 open Conv
 open BinNums
 open Prelude
@@ -104,7 +105,9 @@ let result_str (r : wbresult) : string =
 let outcome_str (o : wbresult outcome) : string =
   match o with
   | Ok r -> result_str r
-  | Err e -> if int_of_n e = 5 then "openerr:password" else "openerr:other"
+  | Err e -> if int_of_n e = 5 then "openerr:password"
+             else if int_of_n e = 99 then "unmodelled"      (* a _VBA_PROJECT_CUR storage, a BIFF5 BOF *)
+             else "openerr:other"
   | Panic -> "panic"
   | OutOfFuel -> "fuel"
 
